@@ -501,8 +501,9 @@ func (d *Disk) MUnmap(b []byte) error {
 	d.mu.Lock()
 	defer d.mu.Unlock()
 	d.MUnmapCalls++
-	if b == nil && d.mapped == nil {
-		return nil
+	if len(b) == 0 && d.mapped == nil {
+		// as the operating system: munmap of an empty region is EINVAL
+		return &IOError{K: txfile.OSOtherError, What: "munmap of an empty region: invalid argument"}
 	}
 	if d.mapped == nil || len(b) == 0 || &b[0] != &d.mapped[0] {
 		return fmt.Errorf("simdisk: munmap of unknown mapping")
